@@ -299,6 +299,7 @@ slab_e (int m, int pos)
 }
 
 /* (d) salt: every single-character change, and a cost step */
+static int salt_char_must_count;   /* the changed character lies inside the salt length the method documents as significant: dropping it from the echo is no excuse */
 static int numeric_cost_differs;   /* the two settings spell numerically different costs: equal hash parts are a violation even when the echoed settings coincide */
 static void
 compare_settings (int m, const char *P, const char *S1, const char *S2, const char *what, long pos, const char *replay)
@@ -314,7 +315,7 @@ compare_settings (int m, const char *P, const char *S1, const char *S2, const ch
     return;
   strcpy (H2, h);
   size_t o1 = hash_off (method_of (H1), H1), o2 = hash_off (method_of (H2), H2);
-  if (o1 == o2 && !strncmp (H1, H2, o1) && !numeric_cost_differs)
+  if (o1 == o2 && !strncmp (H1, H2, o1) && !numeric_cost_differs && !salt_char_must_count)
     return;                     /* same canonical setting part: no obligation */
   if (!strcmp (H1 + o1, H2 + o2))
     {
@@ -439,10 +440,12 @@ slab_h (int fi)
 
 /* (f) salts of every length each method accepts (and a little beyond): a change of one salt character at any position, or
    a cost step, must change the hash part unless the echoed setting shows that the character was dropped */
-static const struct { int m; const char *head, *head2; int maxlen, yenc; } fheads[] = {
-  { M_MD5, "$1$", 0, 10, 0 }, { M_SHA256, "$5$rounds=1000$", "$5$rounds=1001$", 18, 0 }, { M_SHA512, "$6$rounds=1000$", "$6$rounds=1001$", 18, 0 },
-  { M_SHA1, "$sha1$20$", "$sha1$21$", 340, 0 }, { M_SHA1, "$sha1$0$", "$sha1$1$", 340, 0 }, { M_SUNMD5, "$md5$", "$md5,rounds=1$", 48, 0 },
-  { M_SCRYPT, "$7$2/..../....", "$7$3/..../....", 300, 0 }, { M_YESCRYPT, "$y$j/.$", "$y$j0.$", 86, 1 }, { M_GOST, "$gy$j/.$", "$gy$j0.$", 86, 1 },
+/* sig: number of leading salt characters crypt(5) documents as significant (md5crypt 8, sha-crypt 16, the others the whole salt) */
+static const struct { int m; const char *head, *head2; int maxlen, yenc, sig; } fheads[] = {
+  { M_MD5, "$1$", 0, 24, 0, 8 }, { M_SHA256, "$5$rounds=1000$", "$5$rounds=1001$", 40, 0, 16 }, { M_SHA512, "$6$rounds=1000$", "$6$rounds=1001$", 40, 0, 16 },
+  { M_SHA1, "$sha1$20$", "$sha1$21$", 340, 0, 1000 }, { M_SHA1, "$sha1$0$", "$sha1$1$", 340, 0, 1000 }, { M_SUNMD5, "$md5$", "$md5,rounds=1$", 48, 0, 1000 },
+  { M_SCRYPT, "$7$2/..../....", "$7$3/..../....", 300, 0, 1000 }, { M_YESCRYPT, "$y$j/.$", "$y$j0.$", 86, 1, 1000 }, { M_GOST, "$gy$j/.$", "$gy$j0.$", 86, 1, 1000 },
+  { M_SHA256, "$5$", 0, 40, 0, 16 }, { M_SHA512, "$6$", 0, 40, 0, 16 },
 };
 #define NFHEADS ((int) (sizeof fheads / sizeof *fheads))
 
@@ -465,7 +468,7 @@ slab_f (int hi, int L)
   for (int pos = 0; pos < L; pos++)
     {
       static const int edge[] = { 63, 64, 65, 89, 90, 91, 127, 128, 129, 255, 256, 257 };
-      int sel = vh_thorough || L <= 24 || pos < 2 || pos >= L - 2 || pos == L / 2;
+      int sel = vh_thorough || L <= 24 || pos < 18 || pos < 2 || pos >= L - 2 || pos == L / 2;
       for (unsigned e = 0; e < sizeof edge / sizeof *edge; e++)
         sel |= pos == edge[e];
       if (!sel)
@@ -478,7 +481,9 @@ slab_f (int hi, int L)
       if (fheads[hi].yenc && pos == L - 1 && L % 4 == 3)
         mod = 16;
       S2[hl + (size_t) pos] = A64[(ix + 1) % mod];
+      salt_char_must_count = pos < fheads[hi].sig;
       compare_settings (m, "pw", S1, S2, "salt-character-of-a-long-salt", pos, rp);
+      salt_char_must_count = 0;
     }
   if (fheads[hi].head2)
     {
